@@ -231,6 +231,65 @@ def gen_shift_world(rng: random.Random, n_steps: int, dt: Optional[int] = None) 
             "requests": requests, "stations": stations, "bases": bases, "schedules": sched, "focus": "shift"}
 
 
+def gen_input_world(rng: random.Random, n_steps: int, dt: Optional[int] = None) -> Dict[str, Any]:
+    """timed inputs: request bursts / gaps / identical and on-boundary time stamps, price tables by station id or by
+    region (coarser than, equal to and finer than the search resolution) that mention only some stations"""
+    import h3
+
+    dt = dt or rng.choice([1, 7, 37, 60, 400])
+    start = rng.choice([0, 0, 17, 990, 86400 - 3 * dt])
+    cancel = rng.choice([dt, 3 * dt + 5, 250, 600, 2 * dt])
+    t_end = start + dt * n_steps
+    # two stations ~600 m apart inside one search cell, one in another search cell, one more next to the first
+    pts = [world.at(0, 0), world.at(600, 0), world.at(9000, 3000), world.at(40, 30)]
+    stations = []
+    for k, c in enumerate(pts[: rng.randint(3, 4)]):
+        stations.append({"id": f"s{k+1}", "lat": c[0], "lon": c[1], "plugs": [("DCFC", 2, True)] + ([("LEVEL_2", 1, True)] if rng.random() < 0.6 else [])})
+    bases = [{"id": "b1", "lat": pts[0][0], "lon": pts[0][1], "station": None, "stalls": 3}]
+    vehicles = [{"id": f"v{k+1}", "lat": pts[k % 2][0], "lon": pts[k % 2][1], "mech": "leaf_50", "soc": 0.8} for k in range(rng.randint(1, 2))]
+    requests = []
+    t = start - rng.choice([0, 0, dt, 3 * cancel])
+    rid = 0
+    while t < t_end and rid < 70:
+        burst = rng.choice([1, 1, 1, 2, 4])
+        for _ in range(burst):
+            rid += 1
+            o, d = pts[rng.randrange(2)], pts[rng.randrange(2)]
+            requests.append({"id": f"r{rid:03d}", "o": o, "d": d, "dep": max(0, t), "pax": 1, "fleet": None})
+        step = rng.choice([0, 1, dt - 1, dt, dt + 1, 2 * dt, rng.randrange(1, 5 * dt + 2)])
+        t += max(0, step)
+        if rng.random() < 0.3:
+            t = start + ((t - start) // dt) * dt          # exactly on a step boundary
+    requests = [r for r in requests if r["dep"] >= 0]
+    requests.sort(key=lambda r: r["dep"])
+    mode = rng.choice(["station_id", "station_id", "region_coarse", "region_search", "region_fine"])
+    prices: List[Dict[str, Any]] = []
+    stamps = sorted({max(0, start - 5), start, start + dt * (n_steps // 4), start + dt * (n_steps // 2) + rng.choice([0, 1, dt - 1]),
+                     start + dt * (3 * n_steps // 4)})
+    if mode == "station_id":
+        for ts in stamps:
+            named = [s for s in stations if rng.random() < 0.6] or [stations[0]]
+            for s in named:
+                for (cid, _, _) in s["plugs"]:
+                    if rng.random() < 0.8:
+                        prices.append({"time": ts, "target": s["id"], "charger_id": cid, "price": rng.choice([0.05, 0.11, 0.2, 0.35, 0.5])})
+        key = "station_id"
+    else:
+        res = {"region_coarse": rng.choice([5, 6]), "region_search": 7, "region_fine": rng.choice([8, 9, 10])}[mode]
+        regions = sorted({h3.geo_to_h3(s["lat"], s["lon"], res) for s in stations})
+        for ts in stamps:
+            named = [g for g in regions if rng.random() < 0.6] or [regions[0]]
+            for g in named:
+                for cid in ("DCFC", "LEVEL_2"):
+                    if rng.random() < 0.8:
+                        prices.append({"time": ts, "target": g, "charger_id": cid, "price": rng.choice([0.05, 0.11, 0.2, 0.35, 0.5])})
+        key = "geoid"
+    prices.sort(key=lambda p: p["time"])
+    return {"name": "inputs", "dt": dt, "start": start, "end": t_end, "cancel": cancel, "vehicles": vehicles, "requests": requests,
+            "stations": stations, "bases": bases, "prices": prices, "price_key": key, "focus": "inputs", "price_mode": mode,
+            "lazy": rng.random() < 0.5}
+
+
 def gen_world(rng: random.Random, *, n_steps: int = 40, fleets: Optional[bool] = None, humans: bool = True,
               dt: Optional[int] = None, tight: bool = True, focus: Optional[str] = None, osm: bool = False) -> Dict[str, Any]:
     """a small world built to make vehicles contend: few plugs and stalls, co-located entities, low charge"""
@@ -240,6 +299,8 @@ def gen_world(rng: random.Random, *, n_steps: int = 40, fleets: Optional[bool] =
         return gen_energy_world(rng, n_steps, dt)
     if focus == "shift":
         return gen_shift_world(rng, n_steps, dt)
+    if focus == "inputs":
+        return gen_input_world(rng, n_steps, dt)
     dt = dt or rng.choice([30, 60, 60, 120])
     ncell = rng.randint(3, 5)
     # cells 300..1500 m apart (one to three steps at 40 km/h and dt = 60)
